@@ -134,7 +134,67 @@ pub fn key_alphabet(seed: u64, full: bool) -> KeyAlpha {
         names.push(format!("sk=keygen#{}", i));
         be.push(rf::scalar_to_be(&rf::keygen(d)));
     }
+    // appended last so that positions used elsewhere stay put: keys selected by a byte pattern of their public key
+    for (n, k) in pattern_keys(seed) {
+        names.push(n);
+        be.push(k);
+    }
     KeyAlpha { names, be }
+}
+
+/// Keys whose compressed public key has a special byte pattern: first byte exactly 0x80 or exactly 0xa0 (the top bits
+/// of x are zero), or a zero byte right behind the flag byte - for the 48 byte (G1) and the 96 byte (G2) encoding.
+/// Found by a deterministic search over derived keys; the reference computes the encodings.
+pub fn pattern_keys(seed: u64) -> Vec<(String, [u8; 32])> {
+    use bls12_381_plus::group::Group as _;
+    static CACHE: std::sync::Mutex<Vec<(u64, Vec<(String, [u8; 32])>)>> = std::sync::Mutex::new(Vec::new());
+    if let Some((_, v)) = CACHE.lock().unwrap().iter().find(|(s, _)| *s == seed) {
+        return v.clone();
+    }
+    let wanted: [(&str, usize, fn(&[u8]) -> bool); 6] = [
+        ("G1 public key starts with 0x80", 48, |b| b[0] == 0x80),
+        ("G1 public key starts with 0xa0", 48, |b| b[0] == 0xa0),
+        ("G1 public key has 0x00 at offset 1", 48, |b| b[1] == 0),
+        ("G2 public key starts with 0x80", 96, |b| b[0] == 0x80),
+        ("G2 public key starts with 0xa0", 96, |b| b[0] == 0xa0),
+        ("G2 public key has 0x00 at offset 1", 96, |b| b[1] == 0),
+    ];
+    let mut found: Vec<Option<[u8; 32]>> = vec![None; wanted.len()];
+    for i in 0..20_000u32 {
+        let sk = rf::keygen(&data(seed, &format!("pattern-key-{}", i), 32));
+        let e48 = rf::enc(&(bls12_381_plus::G1Projective::generator() * sk));
+        let e96 = rf::enc(&(bls12_381_plus::G2Projective::generator() * sk));
+        for (j, (_, len, pred)) in wanted.iter().enumerate() {
+            if found[j].is_none() && pred(if *len == 48 { &e48 } else { &e96 }) {
+                found[j] = Some(rf::scalar_to_be(&sk));
+            }
+        }
+        if found.iter().all(|f| f.is_some()) {
+            break;
+        }
+    }
+    let mut v: Vec<(String, [u8; 32])> = wanted.iter().zip(found).filter_map(|((n, _, _), k)| k.map(|k| (format!("sk with {}", n), k))).collect();
+    // rarer patterns (about 1 key in 10^4..10^5), found once with `blsful-mc tool pattern-keys` and validated here with
+    // the reference arithmetic: a coordinate of the public key within 2^-16 of the field modulus (leading bytes 1a01)
+    // or below 2^-16 of it (leading bytes 0000)
+    let hi = |b: &[u8]| (((b[0] & 0x1f) as u16) << 8) | b[1] as u16;
+    for (name, hexkey, len, off, want) in [
+        ("G1 public key x just below the modulus", "617d797d0550b63d76bfc2c116dda3dac56daacce9bf9e2d5eac5b1a29c786ad", 48usize, 0usize, 0x1a01u16),
+        ("G1 public key x with 16 leading zero bits", "06f2fbfd18c40fbcb7208d3722cbe09af1b6ee5c973e7e02059c84ec345f3e62", 48, 0, 0),
+        ("G2 public key x.c1 just below the modulus", "62dd3eeee7f0ac39ed84cd6d64595b9a2494bc93129b21e657b79e6778d48657", 96, 0, 0x1a01),
+        ("G2 public key x.c1 with 16 leading zero bits", "63cc8eb20707b6eb4b2de4eb831c4fdf9fed886513a9d5d1905bf2c9f0057e84", 96, 0, 0),
+        ("G2 public key x.c0 just below the modulus", "4547fedc8a72695e8d8b8ad7330817dba90fea508f7bf06154996917c4ecf610", 96, 48, 0x1a01),
+        ("G2 public key x.c0 with 16 leading zero bits", "318c6e0fd575ee68e640eb3d53d000ee74a0fc2b31bdefb53578f7202a19628e", 96, 48, 0),
+    ] {
+        let kb: [u8; 32] = hex::decode(hexkey).unwrap().try_into().unwrap();
+        let sk = rf::scalar_from_be(&kb).expect("canonical scalar");
+        let e = if len == 48 { rf::enc(&(bls12_381_plus::G1Projective::generator() * sk)) } else { rf::enc(&(bls12_381_plus::G2Projective::generator() * sk)) };
+        let got = if off == 0 { hi(&e) } else { ((e[off] as u16) << 8) | e[off + 1] as u16 };
+        assert_eq!(got, want, "hard-coded pattern key '{}' does not have its pattern", name);
+        v.push((format!("sk with {}", name), kb));
+    }
+    CACHE.lock().unwrap().push((seed, v.clone()));
+    v
 }
 
 // ---- message alphabet ---------------------------------------------------------------------------
@@ -173,7 +233,7 @@ pub fn msg_alphabet(seed: u64, full: bool) -> MsgAlpha {
     let lens: Vec<usize> = if full {
         vec![0, 1, 31, 32, 33, 127, 128, 129, 255, 256, 257, 4096, 16383, 16384, 65535, 65536, 65537, 2097151, 2097152, 2097153, 16777216]
     } else {
-        vec![0, 1, 31, 32, 33, 127, 128, 129, 255, 256, 257, 4096, 16383, 16384, 65535, 65536, 65537, 2097152]
+        vec![0, 1, 31, 32, 33, 127, 128, 129, 255, 256, 257, 4096, 16383, 16384, 65535, 65536, 65537, 2097152, 4194305, 16777217]
     };
     let mut names = vec![];
     let mut msgs = vec![];
@@ -191,6 +251,19 @@ pub fn msg_alphabet(seed: u64, full: bool) -> MsgAlpha {
             names.push(format!("msg(len={},content={})", l, ["zeros", "ff", "counter", "shake"][*c]));
             msgs.push(msg_of(seed, l, *c));
         }
+    }
+    // contents that matter to text handling, framing or parsers rather than to the length
+    for (n, m) in [
+        ("nul", b"\0".to_vec()),
+        ("embedded-nul", b"a\0b".to_vec()),
+        ("newline", b"line\nbreak\r\n".to_vec()),
+        ("hex-looking", b"deadbeef00ff".to_vec()),
+        ("json-looking", b"{\"a\":[1,2]}".to_vec()),
+        ("ff-run", vec![0xff; 40]),
+        ("utf8-bom", vec![0xef, 0xbb, 0xbf, b'x']),
+    ] {
+        names.push(format!("msg(len={},content={})", m.len(), n));
+        msgs.push(m);
     }
     MsgAlpha { names, msgs }
 }
@@ -511,4 +584,35 @@ pub fn iterator_shapes<'a, T: Clone + 'a>(v: &'a [T]) -> Vec<(&'static str, Box<
         ("take_while", Box::new(v.iter().cloned().take_while(|_| true))),
         ("flat_map", Box::new(v.iter().cloned().flat_map(|x| std::iter::once(x)))),
     ]
+}
+
+// ---- scalars at the edges of their 64 bit limbs -------------------------------------------------------------
+
+/// canonical scalars (below r) whose little endian 64 bit limbs are at their extremes: range checks written limb by limb
+/// get the order or the carry wrong exactly here
+pub fn limb_edge_scalars() -> Vec<(String, [u8; 32])> {
+    let mk = |limbs_le: [u64; 4]| -> [u8; 32] {
+        let mut be = [0u8; 32];
+        for (i, l) in limbs_le.iter().enumerate() {
+            be[32 - 8 * (i + 1)..32 - 8 * i].copy_from_slice(&l.to_be_bytes());
+        }
+        be
+    };
+    let m = u64::MAX;
+    // r = 0x73eda753299d7d48 3339d80809a1d805 53bda402fffe5bfe ffffffff00000001
+    let v = vec![
+        ("2^64-1".to_string(), mk([m, 0, 0, 0])),
+        ("2^128-1".to_string(), mk([m, m, 0, 0])),
+        ("2^192-1".to_string(), mk([m, m, m, 0])),
+        ("low limb ffffffff00000002".to_string(), mk([0xffffffff00000002, 0, 0, 0])),
+        ("top limb of r minus one, other limbs all ones".to_string(), mk([m, m, m, 0x73eda753299d7d47])),
+        ("top limbs of r, low limbs all ones below".to_string(), mk([m, m, 0x3339d80809a1d804, 0x73eda753299d7d48])),
+        ("r with its low limb minus two plus all ones in limb 0 of r-".to_string(), mk([0xffffffff00000000, 0x53bda402fffe5bfe, 0x3339d80809a1d805, 0x73eda753299d7d48])),
+        ("only the top limb".to_string(), mk([0, 0, 0, 0x73eda753299d7d48])),
+        ("2^255 - 2^192 region: top limb 0x7000...".to_string(), mk([1, 0, 0, 0x7000000000000000])),
+    ];
+    for (n, b) in &v {
+        assert!(rf::scalar_from_be(b).is_some(), "limb edge scalar '{}' is not canonical", n);
+    }
+    v
 }
